@@ -8,6 +8,8 @@ import (
 	"math/rand/v2"
 	"reflect"
 	"unsafe"
+
+	flyt "github.com/mark3labs/flyt"
 )
 
 type Named struct {
@@ -98,6 +100,9 @@ func Fixed() []Named {
 		{"error-value", fmt.Errorf("an error")}, {"tagged-struct", Tagged{1, "n"}}, {"ptr-tagged", &Tagged{2, "m"}},
 		{"ptr-ptr", func() any { p := &someInt; return &p }()},
 		{"rune", 'x'}, {"json-number-string", "1e3"},
+		// the library's own named string type as a payload: a value like any other
+		{"flyt-action", flyt.Action("approve")}, {"flyt-action-empty", flyt.Action("")}, {"flyt-action-default", flyt.DefaultAction},
+		{"slice-of-iface-err-two", []error{fmt.Errorf("e1"), nil}}, {"slice-of-stringer", []fmt.Stringer{nil}},
 	}
 	// numeric kinds at boundary values
 	out = append(out,
@@ -118,6 +123,16 @@ func Fixed() []Named {
 		Named{"float64-2^63", 9223372036854775808.0}, Named{"float64-2^53+", 9007199254740993.0},
 	)
 	return out
+}
+
+// Index returns the position of the named value in Fixed() (-1 if absent).
+func Index(name string) int {
+	for i, z := range Fixed() {
+		if z.Name == name {
+			return i
+		}
+	}
+	return -1
 }
 
 // Same reports whether two dynamic values are "the same value" in the sense
